@@ -17,6 +17,7 @@ Not decided: degrees 4..12 beyond what loop uniformity implies, floating-point a
 """
 import ast
 import os
+import re
 from fractions import Fraction
 import numpy as np
 from sa import poly as P
@@ -41,14 +42,20 @@ def table_rule(chk, prog):
     f = prog.func(WMM + "::WMM.reset_date")
     chk.touch(f)
     arms = []     # (threshold or None, filename)
-    for s in f.body():
-        if isinstance(s, ast.If) and isinstance(s.test, ast.Compare) and "date_dec" in ast.unparse(s.test.left) and isinstance(s.test.ops[0], ast.Lt):
-            thr = s.test.comparators[0]
-            fn = [b.value.value for b in s.body if isinstance(b, ast.Assign) and "wmm_filename" in ast.unparse(b.targets[0]) and isinstance(b.value, ast.Constant)]
-            if isinstance(thr, ast.Constant) and fn:
-                arms.append((float(thr.value), fn[0]))
-        if isinstance(s, ast.Assign) and "wmm_filename" in ast.unparse(s.targets[0]) and isinstance(s.value, ast.Constant):
-            arms.append((None, s.value.value))
+
+    def collect(stmts, thr):
+        """assignments of the file name with the date threshold that guards them (None = every earlier test failed)"""
+        for s_ in stmts:
+            if isinstance(s_, ast.If) and isinstance(s_.test, ast.Compare) and "date_dec" in ast.unparse(s_.test.left) and isinstance(s_.test.ops[0], ast.Lt) \
+                    and isinstance(s_.test.comparators[0], ast.Constant):
+                collect(s_.body, float(s_.test.comparators[0].value))
+                collect(s_.orelse, None)
+            elif isinstance(s_, ast.If):
+                collect(s_.body, thr)
+                collect(s_.orelse, thr)
+            elif isinstance(s_, ast.Assign) and "wmm_filename" in ast.unparse(s_.targets[0]) and isinstance(s_.value, ast.Constant):
+                arms.append((thr, s_.value.value))
+    collect(f.body(), None)
     if len(arms) < 3:
         chk.error("TABLE: found %d model-selection arms in reset_date, 3 confirmed by hand" % len(arms))
         return
@@ -111,7 +118,7 @@ def _loop_names(f):
     """(degree var, order var) as named in f: the n/m harmonic loop variables, or the names unpacked from row[:2] in the loader"""
     for n in ast.walk(f.node):
         if isinstance(n, ast.Assign) and isinstance(n.targets[0], ast.Tuple) and len(n.targets[0].elts) == 2 and isinstance(n.value, (ast.Call, ast.Subscript)) \
-                and "row[:2]" in ast.unparse(n.value):
+                and re.search(r"\w+\[:2\]", ast.unparse(n.value)):
             return n.targets[0].elts[0].id, n.targets[0].elts[1].id
     for n in ast.walk(f.node):
         if isinstance(n, ast.For) and isinstance(n.target, ast.Name):
@@ -153,10 +160,13 @@ def _subs(f, names=("self.c", "self.cd")):
     out = []
 
     def walk(stmts, conds):
+        conds = list(conds)
         for s in stmts:
             if isinstance(s, ast.If):
                 walk(s.body, conds + [ast.unparse(s.test)])
                 walk(s.orelse, conds + ["not(" + ast.unparse(s.test) + ")"])
+                if not s.orelse and s.body and isinstance(s.body[-1], (ast.Continue, ast.Return, ast.Raise, ast.Break)):
+                    conds = conds + ["not(" + ast.unparse(s.test) + ")"]      # guard by early exit: the rest of the block runs only if the test failed
                 continue
             if isinstance(s, (ast.For, ast.While)):
                 walk(s.body, conds)
@@ -185,8 +195,14 @@ def index_rule(chk, prog):
     # loader: n, m = row[:2]; columns
     lt = ast.unparse(load.node)
     colmap = {}
+    rowvar = None
+    for n_ in ast.walk(load.node):
+        if isinstance(n_, ast.Assign) and isinstance(n_.targets[0], ast.Tuple) and isinstance(n_.value, (ast.Call, ast.Subscript)):
+            m_ = re.match(r"(\w+)\[:2\]", ast.unparse(n_.value))
+            if m_:
+                rowvar = m_.group(1)
     for arr, idx, store, conds, s in _subs(load):
-        if store and isinstance(s, ast.Assign) and isinstance(s.value, ast.Subscript) and ast.unparse(s.value.value) == "row":
+        if store and isinstance(s, ast.Assign) and isinstance(s.value, ast.Subscript) and ast.unparse(s.value.value) == rowvar:
             colmap[(arr, idx)] = (_idx(s.value.slice), conds)
     want = {("self.c", G): "2", ("self.c", H): "3", ("self.cd", G): "4", ("self.cd", H): "5"}
     for key, col in want.items():
@@ -198,10 +214,10 @@ def index_rule(chk, prog):
             chk.record("INDEX.loader", site, "COF column %s stored at %s[%s]" % (col, key[0], key[1]), verdict="VIOLATION")
             chk.finding("INDEX.loader", WMM, "WMM.load_coefficients", "%s[%s] <- row[%s]" % (key[0], key[1], got[0] if got else None),
                         "the loader does not put COF column %s (%s) at %s[%s]" % (col, {"2": "g", "3": "h", "4": "g-dot", "5": "h-dot"}[col], key[0], key[1]), line=load.node.lineno)
-    if "n, m = row[:2]" not in lt:     # after canonical renaming: degree first, order second
+    if not re.search(r"n, m = \w+\[:2\]", lt):     # after canonical renaming: degree first, order second
         chk.finding("INDEX.loader", WMM, "WMM.load_coefficients", "degree/order unpacking", "the loader no longer reads (n, m) from the first two columns in that order", line=load.node.lineno)
     for key, (col, conds) in colmap.items():
-        if key[1] == H and not any("m!=0" in c.replace(" ", "") or "m>0" in c.replace(" ", "") for c in conds):
+        if key[1] == H and not any(c.replace(" ", "") in ("m!=0", "m>0", "not(m==0)", "not(m<=0)") or "m!=0" in c.replace(" ", "") or "m>0" in c.replace(" ", "") for c in conds):
             chk.finding("INDEX.loader", WMM, "WMM.load_coefficients", "h stored for m == 0", "h_n^0 would be written at column -1 (wraps around to another coefficient)", line=load.node.lineno)
     # scaler and reader use exactly the two cells, h only under m > 0
     for f, rule in ((den, "INDEX.scaler"), (mf, "INDEX.reader")):
@@ -216,7 +232,7 @@ def index_rule(chk, prog):
             chk.finding(rule, WMM, f.qname, "cells used: %s" % sorted(cells ^ expect),
                         "%s does not address the packed g/h layout the loader writes (g at [m, n], h at [n, m-1])" % f.qname, line=f.node.lineno)
         for a, i, st, conds, s in used:
-            if i == H and not any(c.replace(" ", "") in ("m>0", "m!=0") for c in conds):
+            if i == H and not any(c.replace(" ", "") in ("m>0", "m!=0", "not(m==0)", "not(m<=0)") for c in conds):
                 chk.finding(rule, WMM, f.qname, "h cell used without m > 0: %s" % stmt_text(s), "h_n^0 does not exist: index m-1 wraps around", line=s.lineno)
     # scaler multiplies both cells by S[m, n]
     for a, i, st, conds, s in _subs(den):
@@ -228,24 +244,38 @@ def index_rule(chk, prog):
 
 
 def bounds_rule(chk, prog):
+    from sa.facts import Facts
     for ref in (WMM + "::WMM.denormalize_coefficients", WMM + "::WMM.magnetic_field"):
-        f = _canon(prog.func(ref))
+        f = prog.func(ref)
+        loops = []
+
+        def on_for(fa, node, st):
+            if isinstance(node.iter, ast.Call) and isinstance(node.iter.func, ast.Name) and node.iter.func.id == "range" and isinstance(node.target, ast.Name):
+                loops.append((node, [fa.vn(a_, st) for a_ in node.iter.args], dict(st)))
+        fa = Facts(f, prog, callbacks={"for": on_for}).analyse()
         found = False
-        for n in ast.walk(f.node):
-            if isinstance(n, ast.For) and isinstance(n.target, ast.Name) and n.target.id == "n":
-                inner = [m for m in ast.walk(n) if isinstance(m, ast.For) and isinstance(m.target, ast.Name) and m.target.id == "m"]
-                if not inner:
-                    continue
-                found = True
-                o, i = ast.unparse(n.iter).replace(" ", ""), ast.unparse(inner[0].iter).replace(" ", "")
-                site = "%s::for n in %s / for m in %s" % (ref, o, i)
-                if o == "range(1,self.degree+1)" and i == "range(n+1)":
-                    chk.record("BOUNDS", site, "n = 1..degree, m = 0..n")
-                else:
-                    chk.record("BOUNDS", site, "n = 1..degree, m = 0..n", verdict="VIOLATION")
-                    chk.finding("BOUNDS", WMM, f.qname, "for n in %s / for m in %s" % (o, i), "harmonic loops do not cover n = 1..degree, m = 0..n: terms are dropped or out of range", line=n.lineno)
+        for node, args, st in loops:
+            inner = [(n2, a2) for n2, a2, _ in loops if n2 is not node and any(n2 is x for x in ast.walk(node))]
+            if not inner:
+                continue
+            # outer: range(1, degree + 1) ; inner: range(outer_var + 1)
+            deg1 = {"Add(S:degree,c:1)", "Add(c:1,S:degree)"}
+            ok_outer = len(args) == 2 and args[0] == "c:1" and args[1] in deg1
+            n2, a2 = inner[0]
+            st_in = [s3 for n3, _, s3 in loops if n3 is n2][0]
+            ov = st_in.get("v:" + node.target.id)
+            ok_inner = len(a2) == 1 and ov is not None and a2[0] in ("Add(%s,c:1)" % ov, "Add(c:1,%s)" % ov)
+            found = True
+            site = "%s::for %s in %s / for %s in %s" % (ref, node.target.id, ast.unparse(node.iter), n2.target.id, ast.unparse(n2.iter))
+            if ok_outer and ok_inner:
+                chk.record("BOUNDS", site, "n = 1..degree, m = 0..n")
+            else:
+                chk.record("BOUNDS", site, "n = 1..degree, m = 0..n", verdict="VIOLATION", detail="outer %s inner %s" % (args, a2))
+                chk.finding("BOUNDS", WMM, f.qname, "for %s in %s / for %s in %s" % (node.target.id, ast.unparse(node.iter), n2.target.id, ast.unparse(n2.iter)),
+                            "harmonic loops do not cover n = 1..degree, m = 0..n (bounds value-number to %s / %s): terms are dropped or out of range" % (args, a2), line=node.lineno)
+            break
         if not found:
-            chk.error("BOUNDS: nested n/m loops not found in %s" % ref)
+            chk.error("BOUNDS: nested degree/order loops not found in %s" % ref)
 
 
 def dt_rule(chk, prog):
@@ -349,12 +379,21 @@ def synthesis(chk, prog, degree=3):
 
     def k_formula():
         for s_ in ast.walk(den.node):
-            if isinstance(s_, ast.Assign) and ast.unparse(s_.targets[0]).replace(" ", "") == "self.k[m,n]":
+            if isinstance(s_, ast.Assign) and re.sub(r"[()\s]", "", ast.unparse(s_.targets[0])).startswith("self.k["):
                 it = Interp(prog)
                 env = Env(mod, den)
                 n_, m_ = P.sym("n"), P.sym("m")
-                env.vars.update({"n": n_, "m": m_})
-                got = it.eval(s_.value, env)
+                dn, dm = _loop_names(den)
+                env.vars.update({dn: n_, dm: m_})
+                val = s_.value
+                for _ in range(3):          # a hoisted local: resolve through its (single) assignment
+                    if isinstance(val, ast.Name):
+                        defs = [x.value for x in ast.walk(den.node) if isinstance(x, ast.Assign) and isinstance(x.targets[0], ast.Name) and x.targets[0].id == val.id]
+                        if len(defs) == 1:
+                            val = defs[0]
+                            continue
+                    break
+                got = it.eval(val, env)
                 want = ((n_ - 1) ** 2 - m_ ** 2) / ((2 * n_ - 1) * (2 * n_ - 3))
                 return eq(got, want, "k[m,n]")
         return (None, "assignment of self.k[m, n] not found")
